@@ -77,7 +77,8 @@ def dirtyComps (f : Font) : List Nat := (List.range f.comps.length).filter (fun 
 
 /-- … and the glyph phase that follows -/
 def glyphPhase (f : Font) : List Step :=
-  [Step.openGlyphSet] ++ ((f.glyphs.map Prod.fst).filter (fun g => g ∈ f.glyphDirty)).map Step.writeGlyph ++ [Step.writeContents]
+  [Step.openGlyphSet] ++ ((f.glyphs.map Prod.fst).filter (fun g => g ∈ f.glyphDirty)).map Step.writeGlyph ++
+    f.scheduled.map Step.deleteGlyph ++ [Step.writeContents] ++ [Step.writeLayerInfo]
 
 theorem plan_inPlace (f : Font) : plan f .inPlace = (dirtyComps f).map Step.writeComp ++ glyphPhase f := by
   simp [plan, isSaveAs, dirtyComps, glyphPhase]
